@@ -26,3 +26,5 @@ def run(ctx):
         codecs20.search(ctx)
         from .. import querycamp     # count / position / end-of-data clauses of reads with non-audio calls in between
         querycamp.run(ctx, "C05", parts=("r",))
+        from .. import foreignread   # FOREIGN-BUT-VALID layouts (SSND offset with chunks behind it, VOC text / repeat blocks, chunks around the audio ...) judged against the CONSTRUCTION
+        foreignread.run(ctx, "C05")
